@@ -1,0 +1,12 @@
+//go:build verif
+
+package meta
+
+import "time"
+
+// VerifSetBatch changes the bbolt batch parameters of an open database (between calls only): the harness makes two
+// calls share one batch.
+func (db *DB) VerifSetBatch(size int, delay time.Duration) {
+	db.boltDB.MaxBatchSize = size
+	db.boltDB.MaxBatchDelay = delay
+}
